@@ -59,6 +59,7 @@ func c15Leaves() []c15Leaf {
 		mk("bool", leaf("true", "if", e1, "enabled"), leaf("false", "if", e1, "enabled")),
 		mk("enum", leaf("1g", "if", e10, "speed"), leaf("10g", "if", e10, "speed")),
 		mk("leaf-list", leafLL([]string{"a", "b"}, "sys", "dns"), leafLL([]string{"b", "c"}, "sys", "dns")),
+		mk("leaf-list-prefix", leafLL([]string{"a", "b"}, "if", e1, "tags"), leafLL([]string{"a", "b", "c"}, "if", e1, "tags")),
 		mk("decimal64", leaf("1.5", "types", "d1"), leaf("-2.5", "types", "d1")),
 		mk("identityref", leaf("tcp", "types", "idr"), leaf("udp", "types", "idr")),
 		mk("uint64", leaf("4294967296", "types", "u64"), leaf("9223372036854775807", "types", "u64")), // values above 2^63 are C12's business
